@@ -1,6 +1,7 @@
 package main
 
 import (
+	"strconv"
 	"fmt"
 	"go/token"
 	"go/types"
@@ -98,114 +99,9 @@ func checkChunkLoop(c *Ctx, r *Report) *ssa.Function {
 	} else {
 		name := c.FnName(retr)
 		r.Fn(name)
-		loops := naturalLoops(retr)
-		var send *ssa.Call
-		allInstrs(retr, false, func(in ssa.Instruction) {
-			if call, ok := in.(*ssa.Call); ok && call.Call.Method != nil && call.Call.Method.Name() == "SendCommand" || ok && call.Call.StaticCallee() != nil && call.Call.StaticCallee().Name() == "SendCommand" {
-				send = call
-			}
-		})
-		if len(loops) != 1 || send == nil {
-			r.Unk(name+"|shape", retr.Pos(), fmt.Sprintf("expected one loop containing SendCommand (loops=%d)", len(loops)))
-		} else {
-			L := loops[0]
-			// write of chunk
-			var write *ssa.Call
-			allInstrs(retr, false, func(in ssa.Instruction) {
-				if call, ok := in.(*ssa.Call); ok && calleeName(&call.Call) == "(*bytes.Buffer).Write" && L.Blocks[call.Block()] {
-					write = call
-				}
-			})
-			okW := false
-			if write != nil {
-				if ld, ok := write.Call.Args[1].(*ssa.UnOp); ok && apOf(ld.X).SelString() == "Rsp.CipherSuiteRecordsChunk" && mustPrecede(retr, send, write) {
-					okW = true
-				}
-			}
-			r.Check(okW, name+"|append chunk", send.Pos(), "every received chunk is appended, after the exchange", "the chunk of each response is not appended to the record buffer after the exchange")
-			// validated: error return on ValidateResponse != nil inside loop returns nil slice
-			okV := false
-			for _, ifi := range ifsOf(retr) {
-				_, x, y, _, isBin := condOf(ifi.Cond)
-				if isBin && isNilConst(y) {
-					if call, ok := x.(*ssa.Call); ok && call.Call.StaticCallee() != nil && call.Call.StaticCallee().Name() == "ValidateResponse" && write != nil {
-						// write must be behind the nil edge
-						if !reachAvoiding(retr, nil, nil, map[edge]bool{{ifi.Block(), ifi.Block().Succs[1]}: true})[write.Block()] {
-							if ret, ok := ifi.Block().Succs[0].Instrs[len(ifi.Block().Succs[0].Instrs)-1].(*ssa.Return); ok && isNilConst(ret.Results[0]) {
-								okV = true
-							}
-						}
-					}
-				}
-			}
-			r.Check(okV, name+"|validated", send.Pos(), "a failed exchange aborts with a nil list", "a failed or non-normal exchange does not abort the enumeration with (nil, err)")
-			// exit tests
-			var exit64, exitShort *ssa.If
-			for _, ifi := range ifsOf(retr) {
-				if !L.Blocks[ifi.Block()] {
-					continue
-				}
-				op, x, y, _, isBin := condOf(ifi.Cond)
-				if !isBin {
-					continue
-				}
-				if ld, ok := x.(*ssa.UnOp); ok && ld.Op == token.MUL && apOf(ld.X).SelString() == "Req.ListIndex" && op == token.EQL {
-					if k, isK := constInt(y); isK && k == 64 && !L.Blocks[ifi.Block().Succs[0]] {
-						exit64 = ifi
-					}
-				}
-				if arg, ok := lenOf(x); ok && op == token.LSS {
-					if ld, ok := arg.(*ssa.UnOp); ok && apOf(ld.X).SelString() == "Rsp.CipherSuiteRecordsChunk" {
-						if k, isK := constInt(y); isK && k == 16 && !L.Blocks[ifi.Block().Succs[0]] {
-							exitShort = ifi
-						}
-					}
-				}
-			}
-			r.Check(exitShort != nil, name+"|stop on short chunk", retr.Pos(), "len(chunk) < 16 ends the enumeration", "the loop does not end exactly when a chunk shorter than 16 bytes arrives")
-			r.Check(exit64 != nil, name+"|stop at index 64", retr.Pos(), "list index 64 ends the enumeration", "no hard stop at list index 64")
-			// increment: the only writers of ListIndex
-			reqT := c.Named("pkg/ipmi", "GetChannelCipherSuitesReq")
-			ws := c.fieldWriters(reqT, "ListIndex")
-			okInc := len(ws) == 1
-			if okInc {
-				st := ws[0]
-				okInc = st.Parent() == retr && L.Blocks[st.Block()] && isIncOf(st, "Req.ListIndex")
-				// increment happens on the back edge only: after both exit tests
-				if okInc && exit64 != nil && exitShort != nil {
-					okInc = mustPrecede(retr, write, st) && canReach(st, send)
-				}
-			}
-			r.Check(okInc, name+"|index+1", retr.Pos(), "the list index is written only by the loop's +1 on the back edge", fmt.Sprintf("the list index is not advanced by exactly one per iteration, or is written elsewhere (%d writers)", len(ws)))
-			// every back edge passes the increment
-			okBack := false
-			if len(ws) == 1 {
-				okBack = true
-				for b := range L.Blocks {
-					for _, s := range b.Succs {
-						if s == L.Header && b != ws[0].Block() {
-							// back edge source must be dominated by the increment's block
-							if !ws[0].Block().Dominates(b) {
-								okBack = false
-							}
-						}
-					}
-				}
-			}
-			r.Check(okBack, name+"|terminates", retr.Pos(), "every iteration advances the index towards 64", "an iteration can repeat without advancing the list index (unbounded loop against a BMC that always sends full chunks)")
-			// parse(all bytes)
-			okP := false
-			for _, ret := range returnsOf(retr) {
-				if ex, ok := ret.Results[0].(*ssa.Extract); ok {
-					if call, ok := ex.Tuple.(*ssa.Call); ok && call.Call.StaticCallee() == parser {
-						if bc, ok := call.Call.Args[0].(*ssa.Call); ok && calleeName(&bc.Call) == "(*bytes.Buffer).Bytes" && write != nil && bc.Call.Args[0] == write.Call.Args[0] {
-							okP = true
-						}
-					}
-				}
-			}
-			r.Check(okP, name+"|parse all", retr.Pos(), "the parser receives the whole accumulated buffer", "the result is not the parse of the whole accumulated buffer")
-		}
+		// the parser is decided on its own (below); in the retriever's view it stays a call
+		markOpaque(parser)
+		checkChunkLoopPaths(c, r, retr, parser, name)
 	}
 
 	return parser
@@ -218,13 +114,59 @@ func checkCipherSuiteParser(c *Ctx, r *Report, parser *ssa.Function) {
 	loops := viewLoops(parser)
 
 	r.Rule("parser-errors", "every error return of the record parser carries a nil slice, never a partial list", 4)
-	nErr := 0
-	for _, ret := range returnsOf(parser) {
-		if isNilConst(ret.Results[1]) {
-			continue
+	// per feasible path of the parser's flattened view: whichever statement produced the error
+	// (in the parser or in a helper that decodes part of a record), the list returned with it
+	// is nil. One obligation per error-producing construct.
+	type errSite struct {
+		pos token.Pos
+		ok  bool
+	}
+	errSites := map[string]*errSite{}
+	complErr := enumPaths(parser, 1, 200000, func(p CPath) {
+		ret, isRet := p.Last().(*ssa.Return)
+		if !isRet || ret.Parent() != parser || len(ret.Results) != 2 {
+			return
 		}
-		nErr++
-		r.Check(isNilConst(ret.Results[0]), name+"|error return #"+fmt.Sprint(nErr), ret.Pos(), "nil list with the error", "an error is returned together with a partial record list")
+		ev := p.Resolve(ret.Results[1])
+		if isNilConst(ev) {
+			return
+		}
+		key := "opaque error"
+		pos := ret.Pos()
+		if in, ok := ev.(ssa.Instruction); ok && in.Pos().IsValid() {
+			pos = in.Pos()
+			ps := c.Prog.Fset.Position(pos)
+			key = fmt.Sprintf("%s#%d", c.FnName(in.Parent()), 0)
+			// line-free: number the error constructs of a function in source order
+			n := 0
+			rawInstrs(in.Parent(), false, func(o ssa.Instruction) {
+				if v, isV := o.(ssa.Value); isV && isErrorType(v.Type()) && o.Pos().IsValid() {
+					if op := c.Prog.Fset.Position(o.Pos()); op.Line < ps.Line || (op.Line == ps.Line && op.Column < ps.Column) {
+						n++
+					}
+				}
+			})
+			key = fmt.Sprintf("%s#%d", c.FnName(in.Parent()), n+1)
+		}
+		es := errSites[key]
+		if es == nil {
+			es = &errSite{pos: pos, ok: true}
+			errSites[key] = es
+		}
+		if !isNilConst(p.Resolve(ret.Results[0])) {
+			es.ok = false
+		}
+	})
+	if !complErr {
+		r.Unk(name+"|error returns", parser.Pos(), "too many paths")
+	}
+	var ekeys []string
+	for k := range errSites {
+		ekeys = append(ekeys, k)
+	}
+	sort.Strings(ekeys)
+	for _, k := range ekeys {
+		r.Check(errSites[k].ok, name+"|error return "+k, errSites[k].pos, "nil list with the error", "an error is returned together with a partial record list")
 	}
 
 	r.Rule("record-grammar", "tag tests and masks equal the record format: start byte>>1 == 0x60 (0xC0 standard / 0xC1 OEM), tag bits >>6: 00 authentication, 01 integrity, 10 confidentiality, algorithm numbers &0x3f, minimum 3 (standard) / 6 (OEM) bytes, OEM IANA little-endian in bytes 2..4", 7)
@@ -239,17 +181,30 @@ func checkCipherSuiteParser(c *Ctx, r *Report, parser *ssa.Function) {
 		if !isBin {
 			continue
 		}
-		k, isK := constInt(y)
-		if !isK {
+		// the constant compared with: a literal, a named constant, or the argument a helper
+		// receives at each of its call sites (one test per site)
+		var ks []int64
+		allK := true
+		for _, o := range viewOrigins(parser, y) {
+			k, isK := constInt(o)
+			if !isK {
+				allK = false
+				break
+			}
+			ks = append(ks, k)
+		}
+		if !allK || len(ks) == 0 {
 			continue
 		}
-		if bo, ok := x.(*ssa.BinOp); ok && bo.Op == token.SHR {
-			if sh, ok := constInt(bo.Y); ok {
-				seen = append(seen, shiftCmp{sh, k, op})
+		for _, k := range ks {
+			if bo, ok := stripConv(x).(*ssa.BinOp); ok && bo.Op == token.SHR {
+				if sh, ok := constInt(bo.Y); ok {
+					seen = append(seen, shiftCmp{sh, k, op})
+				}
 			}
-		}
-		if _, ok := lenOf(x); ok && op == token.LSS {
-			minLens[k] = true
+			if _, ok := lenOf(x); ok && op == token.LSS {
+				minLens[k] = true
+			}
 		}
 	}
 	has := func(sh, k int64) bool {
@@ -480,6 +435,17 @@ func checkCipherSuiteParser(c *Ctx, r *Report, parser *ssa.Function) {
 	r.Check(nColl == 2, name+"|collection loops", parser.Pos(), "one scanning loop per algorithm class", fmt.Sprintf("expected two algorithm-collecting loops, found %d", nColl))
 
 	r.Rule("parser-progress", "each iteration of the record loop drops at least three bytes from the remaining input, so the parser terminates", 1)
+	var progEng *lfEngine
+	progE1 := func() map[*ssa.Slice]int8 {
+		if progEng == nil {
+			progEng = newLenflow(c, 6)
+			progEng.runEntry(parser, nil)
+			if progEng.budgetHit {
+				return nil
+			}
+		}
+		return progEng.sliceLow
+	}
 	okProg := false
 	why := "the record loop does not re-slice the remaining input by a positive offset"
 	for _, l := range loops {
@@ -501,6 +467,9 @@ func checkCipherSuiteParser(c *Ctx, r *Report, parser *ssa.Function) {
 					if lb, ok := lowerBound(sl.Low); ok && lb >= 1 {
 						okProg = true
 						why = fmt.Sprintf("offset ≥ %d", lb)
+					} else if progE1()[sl] == 1 {
+						okProg = true
+						why = "offset ≥ 1 in every state reaching the re-slice (engine E1, through helpers and scanning loops)"
 					} else {
 						why = "cannot bound the consumed offset away from zero"
 					}
@@ -548,38 +517,6 @@ func keysOf(m map[int64]bool) []int64 {
 }
 
 func checkDCMISensorInfo(c *Ctx, r *Report) {
-	ir := newInitReader(c)
-	r.Rule("entity-tables", "standard entity IDs [0x37 inlet, 0x03 processor, 0x07 system board]; DCMI entity IDs [0x40, 0x41, 0x42]", 2)
-	tabs := map[string]string{}
-	var tabG = map[string]*ssa.Global{}
-	if p := c.Pkg("pkg/dcmi"); p != nil {
-		for _, m := range p.Members {
-			g, ok := m.(*ssa.Global)
-			if !ok {
-				continue
-			}
-			sl, ok := g.Type().(*types.Pointer).Elem().(*types.Slice)
-			if !ok {
-				continue
-			}
-			if n, ok := sl.Elem().(*types.Named); !ok || n.Obj().Name() != "EntityID" {
-				continue
-			}
-			v := ir.global(g)
-			var ks []string
-			for _, e := range v.Elems {
-				if k, ok := e.Int(); ok {
-					ks = append(ks, fmt.Sprintf("%#x", k))
-				}
-			}
-			tabs[strings.Join(ks, ",")] = g.Name()
-			tabG[strings.Join(ks, ",")] = g
-		}
-	}
-	std, dc := tabG["0x37,0x3,0x7"], tabG["0x40,0x41,0x42"]
-	r.Check(std != nil, "dcmi standard entity table", token.NoPos, "[0x37,0x3,0x7]", fmt.Sprintf("no entity table [0x37,0x03,0x07]; tables found: %v", tabs))
-	r.Check(dc != nil, "dcmi DCMI entity table", token.NoPos, "[0x40,0x41,0x42]", fmt.Sprintf("no entity table [0x40,0x41,0x42]; tables found: %v", tabs))
-
 	// locate functions by type
 	siT := c.Named("pkg/dcmi", "SensorInfo")
 	cmdT := c.Named("pkg/dcmi", "GetDCMISensorInfoCmd")
@@ -608,7 +545,9 @@ func checkDCMISensorInfo(c *Ctx, r *Report) {
 			}
 		}
 	}
-	if top == nil || mapper == nil || pager == nil || std == nil || dc == nil {
+	r.Rule("entity-tables", "the entity IDs handed to the per-family query: first the standard ones [0x37 inlet, 0x03 processor, 0x07 system board], then the DCMI ones [0x40, 0x41, 0x42] — whatever holds them (a table, a literal, a struct of named IDs)", 2)
+	if top == nil || mapper == nil || pager == nil {
+		r.Lost("dcmi.GetSensorInfo / getSensorMap / getEntityInstances")
 		r.Rule("fallback", "", 1)
 		r.Lost("dcmi.GetSensorInfo / getSensorMap / getEntityInstances")
 		return
@@ -636,15 +575,34 @@ func checkDCMISensorInfo(c *Ctx, r *Report) {
 	if !mustPrecede(top, first, second) {
 		first, second = second, first
 	}
-	tableArg := func(call *ssa.Call) *ssa.Global {
-		a := call.Call.Args[len(call.Call.Args)-1]
-		if ld, ok := a.(*ssa.UnOp); ok {
-			g, _ := ld.X.(*ssa.Global)
-			return g
+	// the entity lists, evaluated on every path that makes the call
+	lists := map[*ssa.Call]string{}
+	enumPaths(top, 1, 8192, func(p CPath) {
+		for _, oc := range p.OccsPos() {
+			call, ok := oc.In.(*ssa.Call)
+			if !ok || call.Call.StaticCallee() != mapper {
+				continue
+			}
+			ks, ok := sliceConsts(c, p.Upto(oc.Seg), oc.Ctx, call.Call.Args[len(call.Call.Args)-1])
+			txt := "not a constant list"
+			if ok {
+				var parts []string
+				for _, k := range ks {
+					parts = append(parts, fmt.Sprintf("%#x", k))
+				}
+				txt = strings.Join(parts, ",")
+			}
+			if prev, seen := lists[call]; seen && prev != txt {
+				txt = "differs between paths"
+			}
+			lists[call] = txt
 		}
-		return nil
-	}
-	r.Check(tableArg(first) == std && tableArg(second) == dc, tname+"|family order", first.Pos(), "standard IDs first, DCMI IDs second", "the standard entity IDs are not tried first / the DCMI ones second")
+	})
+	r.Rule("entity-tables", "", 2)
+	r.Check(lists[first] == "0x37,0x3,0x7", "dcmi standard entity table", first.Pos(), "[0x37,0x3,0x7] queried first", fmt.Sprintf("the first query does not ask for the standard entity IDs [0x37,0x03,0x07] (it asks for: %s)", lists[first]))
+	r.Check(lists[second] == "0x40,0x41,0x42", "dcmi DCMI entity table", second.Pos(), "[0x40,0x41,0x42] queried second", fmt.Sprintf("the fallback query does not ask for the DCMI entity IDs [0x40,0x41,0x42] (it asks for: %s)", lists[second]))
+	r.Rule("fallback", "", 5)
+	r.Check(lists[first] == "0x37,0x3,0x7" && lists[second] == "0x40,0x41,0x42", tname+"|family order", first.Pos(), "standard IDs first, DCMI IDs second", "the standard entity IDs are not tried first / the DCMI ones second")
 	// the early success return: behind err == nil and count > 0; the second call reachable exactly otherwise
 	var errIf, cntIf *ssa.If
 	for _, ifi := range ifsOf(top) {
@@ -936,7 +894,11 @@ func checkDCMISensorInfo(c *Ctx, r *Report) {
 		if op == token.EQL && isK && k == 255 {
 			exit255 = true
 		}
-		if op == token.LSS && leaves && !isK {
+		// continue only while collected < advertised: `for len < total` (the false arm leaves)
+		// or `if len >= total { break }` (the true arm leaves)
+		contLess := op == token.LSS && !outer.Blocks[ifi.Block().Succs[1]]
+		stopGeq := op == token.GEQ && !outer.Blocks[ifi.Block().Succs[0]]
+		if (contLess || stopGeq) && leaves && !isK {
 			// bound must be a byte-ranged value: φ(…, int(uint8 field))
 			byteBound := true
 			for _, v := range possibleValues(y) {
@@ -983,31 +945,30 @@ func sumsLens(fn *ssa.Function) bool {
 }
 
 
-// tableElem: v (on path p) is element k, k constant, of a package-level slice or
-// array whose initial contents are known and which is written nowhere else:
-// returns that element's constant value.
+// tableElem: v (on path p) is read from a constant position of a package-level
+// variable that is never written outside its initialiser — an element of a
+// slice or array (`table[1]`), a field of a struct (`family.cpu`), through
+// helper parameters and receiver copies alike; the value is taken from the
+// initialiser.
 func tableElem(c *Ctx, p CPath, v ssa.Value) (int64, bool) {
-	ld, ok := p.Resolve(stripConv(v)).(*ssa.UnOp)
-	if !ok || ld.Op != token.MUL {
+	return globalConstAP(c, p.AP(stripConv(p.Resolve(stripConv(v)))))
+}
+
+func globalConstAP(c *Ctx, ap AP) (int64, bool) {
+	gv := globalValAP(c, ap)
+	if gv == nil {
 		return 0, false
 	}
-	ia, ok := ld.X.(*ssa.IndexAddr)
+	return gv.Int()
+}
+
+// globalValAP: the initial value of the location ap denotes inside a package-level
+// variable that is never written outside its initialiser.
+func globalValAP(c *Ctx, ap AP) *GVal {
+	g, ok := ap.Root.(*ssa.Global)
 	if !ok {
-		return 0, false
+		return nil
 	}
-	k, ok := constInt(p.Resolve(ia.Index))
-	if !ok || k < 0 {
-		return 0, false
-	}
-	base, ok := p.Resolve(ia.X).(*ssa.UnOp)
-	if !ok || base.Op != token.MUL {
-		return 0, false
-	}
-	g, ok := base.X.(*ssa.Global)
-	if !ok {
-		return 0, false
-	}
-	// never reassigned or written through outside its initialiser
 	for _, fn := range c.ModFn {
 		if fn.Blocks == nil || fn.Name() == "init" {
 			continue
@@ -1019,12 +980,355 @@ func tableElem(c *Ctx, p CPath, v ssa.Value) (int64, bool) {
 			}
 		})
 		if written {
-			return 0, false
+			return nil
 		}
 	}
 	gv := newInitReader(c).global(g)
-	if gv == nil || int(k) >= len(gv.Elems) {
-		return 0, false
+	for _, sel := range ap.Sel {
+		if gv == nil {
+			return nil
+		}
+		if strings.HasPrefix(sel, "[") {
+			k, err := strconv.Atoi(strings.Trim(sel, "[]"))
+			if err != nil || k < 0 || k >= len(gv.Elems) {
+				return nil
+			}
+			gv = gv.Elems[k]
+			continue
+		}
+		if gv.Kind == "zero" {
+			return nil
+		}
+		gv = gv.Fields[sel]
 	}
-	return gv.Elems[k].Int()
+	return gv
+}
+
+// sliceConsts: the constant elements of the slice v denotes on path p: a
+// package-level table, or a literal built on the path (possibly in a helper)
+// from constants and constant positions of package-level variables.
+func sliceConsts(c *Ctx, p CPath, ctx *FCtx, v ssa.Value) ([]int64, bool) {
+	rv := p.ResolveIn(ctx, stripConv(v))
+	if gv := globalValAP(c, p.AP(rv)); gv != nil && gv.Kind == "slice" {
+		var out []int64
+		for _, e := range gv.Elems {
+			k, ok := e.Int()
+			if !ok {
+				return nil, false
+			}
+			out = append(out, k)
+		}
+		return out, true
+	}
+	sl, ok := rv.(*ssa.Slice)
+	if !ok || sl.Low != nil || sl.High != nil {
+		return nil, false
+	}
+	al, ok := sl.X.(*ssa.Alloc)
+	if !ok {
+		return nil, false
+	}
+	arr, ok := al.Type().(*types.Pointer).Elem().Underlying().(*types.Array)
+	if !ok {
+		return nil, false
+	}
+	out := make([]int64, arr.Len())
+	have := make([]bool, arr.Len())
+	for _, ref := range *al.Referrers() {
+		ia, ok := ref.(*ssa.IndexAddr)
+		if !ok {
+			if ref == ssa.Instruction(sl) {
+				continue
+			}
+			return nil, false
+		}
+		k, isK := constInt(ia.Index)
+		if !isK || k < 0 || k >= arr.Len() {
+			return nil, false
+		}
+		for _, r2 := range *ia.Referrers() {
+			st, ok := r2.(*ssa.Store)
+			if !ok || st.Addr != ssa.Value(ia) || have[k] {
+				return nil, false
+			}
+			e, isE := constInt(p.Resolve(st.Val))
+			if !isE {
+				e, isE = globalConstAP(c, p.AP(stripConv(st.Val)))
+			}
+			if !isE {
+				return nil, false
+			}
+			out[k], have[k] = e, true
+		}
+	}
+	for _, h := range have {
+		if !h {
+			return nil, false
+		}
+	}
+	return out, true
+}
+
+
+
+// checkChunkLoopPaths decides the retrieval loop over the feasible paths of the
+// retriever's flattened view, the loop taken up to three times. What a request
+// holds when it is sent is the last value stored into it on the path, so the
+// index may live in the request (`Req.ListIndex++` at the bottom) or in a loop
+// variable copied into it at the top, and the loop may sit in a helper.
+func checkChunkLoopPaths(c *Ctx, r *Report, retr, parser *ssa.Function, name string) {
+	isSend := func(in ssa.Instruction) bool {
+		call, ok := in.(*ssa.Call)
+		if !ok {
+			return false
+		}
+		if call.Call.Method != nil {
+			return call.Call.Method.Name() == "SendCommand"
+		}
+		f := call.Call.StaticCallee()
+		return f != nil && f.Name() == "SendCommand"
+	}
+	nSends, nPaths := 0, 0
+	okIdx, okAppend, okValid, okCont64, okContShort, okExit, okParse := true, true, true, true, true, true, true
+	nCont, nExit, nFail := 0, 0, 0
+	whyIdx := ""
+	var sendPos token.Pos
+	complete := enumPaths(retr, 3, 300000, func(p CPath) {
+		occs := p.OccsPos()
+		var sends []int
+		for i, oc := range occs {
+			if isSend(oc.In) {
+				sends = append(sends, i)
+				sendPos = oc.In.Pos()
+			}
+		}
+		if len(sends) == 0 {
+			return
+		}
+		nPaths++
+		rootOf := func(i int) ssa.Value {
+			call := occs[i].In.(*ssa.Call)
+			args := callArgs(&call.Call)
+			a := p.Upto(occs[i].Seg).APIn(occs[i].Ctx, args[len(args)-1])
+			if len(a.Sel) != 0 {
+				return nil
+			}
+			return a.Root
+		}
+		root := rootOf(sends[0])
+		if root == nil {
+			okIdx = false
+			whyIdx = "the command sent is not a local object"
+			return
+		}
+		rels := p.relationsPos(occs)
+		ret, isRet := p.Last().(*ssa.Return)
+		isOwnRet := isRet && ret.Parent() == retr && len(ret.Results) == 2
+		failed := isOwnRet && !isNilConst(p.Resolve(ret.Results[1]))
+		// was the error returned produced by the parser (then the exchange part succeeded)?
+		parsed := -1
+		for i, oc := range occs {
+			if call, ok := oc.In.(*ssa.Call); ok && call.Call.StaticCallee() == parser {
+				parsed = i
+			}
+		}
+		// the chunk appended after send #n: a Write on the buffer of a load of Rsp.CipherSuiteRecordsChunk of the same command
+		isChunkLoad := func(i int, v ssa.Value) bool {
+			ld, ok := stripConv(p.Upto(occs[i].Seg).ResolveIn(occs[i].Ctx, v)).(*ssa.UnOp)
+			if !ok || ld.Op != token.MUL {
+				return false
+			}
+			pos := lastOcc(occs, i, ld)
+			if pos < 0 {
+				return false
+			}
+			a := p.Upto(occs[pos].Seg).APIn(occs[pos].Ctx, ld.X)
+			return a.Root == root && a.SelString() == "Rsp.CipherSuiteRecordsChunk"
+		}
+		var bufRoot ssa.Value
+		for n, sidx := range sends {
+			nSends++
+			if rootOf(sidx) != root {
+				okIdx = false
+				whyIdx = "different command objects are sent"
+			}
+			// the list index carried by the n-th request is n
+			idx := p.fieldAt(occs, sidx, root, "Req.ListIndex")
+			if !idx.IsK || idx.K != int64(n) {
+				okIdx = false
+				whyIdx = fmt.Sprintf("request #%d of a run carries list index %v", n+1, fmtPVal(idx))
+			}
+			end := len(occs)
+			if n+1 < len(sends) {
+				end = sends[n+1]
+			}
+			last := n+1 == len(sends)
+			if last && failed && parsed < 0 {
+				// the exchange (or its validation) failed: nothing is returned
+				nFail++
+				if !isNilConst(p.Resolve(ret.Results[0])) {
+					okValid = false
+				}
+				continue
+			}
+			// the chunk is appended exactly once between this exchange and the next / the end
+			nw := 0
+			for j := sidx + 1; j < end; j++ {
+				call, ok := occs[j].In.(*ssa.Call)
+				if !ok || calleeName(&call.Call) != "(*bytes.Buffer).Write" {
+					continue
+				}
+				if isChunkLoad(j, call.Call.Args[1]) {
+					nw++
+					b := p.Upto(occs[j].Seg).APIn(occs[j].Ctx, call.Call.Args[0]).Root
+					if bufRoot != nil && b != bufRoot {
+						okAppend = false
+					}
+					bufRoot = b
+				}
+			}
+			if nw != 1 {
+				okAppend = false
+			}
+			// the exchange was validated: a ValidateResponse call consumed it and its result was found nil
+			valid := false
+			for _, rel := range rels {
+				if rel.At <= sidx || rel.At >= end || rel.Op != token.EQL {
+					continue
+				}
+				for _, pr := range [][2]ssa.Value{{rel.X, rel.Y}, {rel.Y, rel.X}} {
+					if !isNilConst(pr[1]) {
+						continue
+					}
+					v := p.Upto(occs[rel.At].Seg).ResolveIn(rel.Ctx, pr[0])
+					if call, ok := v.(*ssa.Call); ok && call.Call.StaticCallee() != nil && call.Call.StaticCallee().Name() == "ValidateResponse" {
+						valid = true
+					}
+				}
+			}
+			if !valid {
+				okValid = false
+			}
+			// tests between this exchange and the next one (continuing) or the end (leaving)
+			var is64, not64, short, long bool
+			for _, rel := range rels {
+				if rel.At <= sidx || rel.At >= end {
+					continue
+				}
+				for _, pr := range [][2]ssa.Value{{rel.X, rel.Y}, {rel.Y, rel.X}} {
+					op := rel.Op
+					if pr[0] != rel.X {
+						op = flipOp(op)
+					}
+					k, isK := constInt(p.Upto(occs[rel.At].Seg).ResolveIn(rel.Ctx, pr[1]))
+					if !isK {
+						continue
+					}
+					// the index of the request just sent, compared with 64
+					if k == 64 && (op == token.EQL || op == token.NEQ) {
+						v := p.evalAt(occs, rel.At, rel.Ctx, pr[0])
+						if v.IsK && v.K == int64(n) && p.dependsOnField(occs, rel.At, rel.Ctx, pr[0], root, "Req.ListIndex") {
+							if op == token.EQL {
+								is64 = true
+							} else {
+								not64 = true
+							}
+						}
+					}
+					// the length of the chunk just received, compared with 16
+					if k == 16 && (op == token.LSS || op == token.GEQ) {
+						if arg, ok := lenOf(p.Upto(occs[rel.At].Seg).ResolveIn(rel.Ctx, pr[0])); ok && isChunkLoad(rel.At, arg) {
+							if op == token.LSS {
+								short = true
+							} else {
+								long = true
+							}
+						}
+					}
+				}
+			}
+			if !last {
+				nCont++
+				if !not64 {
+					okCont64 = false
+				}
+				if !long {
+					okContShort = false
+				}
+			} else if isOwnRet && parsed >= 0 {
+				nExit++
+				// with three visits the enumeration also cuts paths short; only real exits count
+				if !is64 && !short {
+					okExit = false
+				}
+				// the parser receives the whole buffer
+				call := occs[parsed].In.(*ssa.Call)
+				good := false
+				if bc, ok := p.Upto(occs[parsed].Seg).ResolveIn(occs[parsed].Ctx, call.Call.Args[0]).(*ssa.Call); ok && calleeName(&bc.Call) == "(*bytes.Buffer).Bytes" {
+					pos := lastOcc(occs, parsed, bc)
+					if pos > sidx && bufRoot != nil && p.Upto(occs[pos].Seg).APIn(occs[pos].Ctx, bc.Call.Args[0]).Root == bufRoot {
+						good = true
+					}
+				}
+				// and its results are the results
+				for i := 0; i < 2; i++ {
+					ex, ok := p.Resolve(ret.Results[i]).(*ssa.Extract)
+					if !ok || ex.Tuple != ssa.Value(call) || ex.Index != i {
+						good = false
+					}
+				}
+				if !good {
+					okParse = false
+				}
+			}
+		}
+	})
+	if !complete || nPaths == 0 {
+		r.Unk(name+"|shape", retr.Pos(), fmt.Sprintf("cannot enumerate the retrieval paths (paths with an exchange: %d)", nPaths))
+		return
+	}
+	r.Check(okAppend && nSends > 0, name+"|append chunk", sendPos, "every received chunk is appended once, after the exchange", "the chunk of each response is not appended exactly once to the record buffer after the exchange")
+	r.Check(okValid && nFail > 0, name+"|validated", sendPos, "a failed exchange aborts with a nil list; chunks are used only after validation", "a failed or non-normal exchange does not abort the enumeration with (nil, err)")
+	r.Check(okContShort && nCont > 0 && okExit && nExit > 0, name+"|stop on short chunk", retr.Pos(), "len(chunk) < 16 ends the enumeration", "the loop does not end exactly when a chunk shorter than 16 bytes arrives (or list index 64 was reached)")
+	r.Check(okCont64 && nCont > 0, name+"|stop at index 64", retr.Pos(), "list index 64 ends the enumeration", "no hard stop at list index 64")
+	// the index field has no writer outside this retrieval
+	reqT := c.Named("pkg/ipmi", "GetChannelCipherSuitesReq")
+	ws := c.fieldWriters(reqT, "ListIndex")
+	inView := map[*ssa.Function]bool{}
+	for _, f := range flatOf(retr).Funcs() {
+		inView[f] = true
+	}
+	foreign := 0
+	for _, st := range ws {
+		if !inView[st.Parent()] {
+			foreign++
+		}
+	}
+	r.Check(okIdx && foreign == 0, name+"|index+1", retr.Pos(), "request n carries list index n (0, 1, 2 on every path); the field is written nowhere else", fmt.Sprintf("the list index is not advanced by exactly one per request, or is written elsewhere (%s; %d foreign writers)", whyIdx, foreign))
+	r.Check(okIdx && okCont64 && nCont > 0, name+"|terminates", retr.Pos(), "every iteration advances the index towards 64", "an iteration can repeat without advancing the list index (unbounded loop against a BMC that always sends full chunks)")
+	r.Check(okParse && nExit > 0, name+"|parse all", retr.Pos(), "the parser receives the whole accumulated buffer and its results are returned", "the result is not the parse of the whole accumulated buffer")
+}
+
+func fmtPVal(v PVal) string {
+	if v.IsK {
+		return fmt.Sprint(v.K)
+	}
+	if v.V != nil {
+		return v.V.Name() + " (not a constant on the path)"
+	}
+	return "?"
+}
+
+func flipOp(op token.Token) token.Token {
+	switch op {
+	case token.LSS:
+		return token.GTR
+	case token.GTR:
+		return token.LSS
+	case token.LEQ:
+		return token.GEQ
+	case token.GEQ:
+		return token.LEQ
+	}
+	return op
 }
